@@ -421,7 +421,11 @@ def main():
         if trouble:
             for t in trouble[:10]:
                 print("TROUBLE: " + t[:1500])
-            die("%d trouble reports" % len(trouble))
+            if rc != 1:
+                die("%d trouble reports" % len(trouble))
+            # a violation was found and replays: it is reported (exit 1); the trouble - e.g. a
+            # run that is not deterministic on this tree - is shown above and does not hide it
+            print("NOTE: %d trouble reports beside the violation(s) above" % len(trouble))
     finally:
         shutil.rmtree(tmp, ignore_errors=True)
     sys.exit(rc)
